@@ -94,6 +94,87 @@ Qed.
 Definition dead (now : Z) (c : conn) : conn :=
   if reconnect c then connect now c else cleared c.
 
+(* the subscription updates change nothing but [interest] *)
+Lemma send_subscribe_fields c :
+  st (send_subscribe c) = st c /\ rbuf (send_subscribe c) = rbuf c /\ wbuf (send_subscribe c) = wbuf c /\
+  last_read (send_subscribe c) = last_read c /\ timeout (send_subscribe c) = timeout c /\
+  reconnect (send_subscribe c) = reconnect c /\ reuse_fd (send_subscribe c) = reuse_fd c.
+Proof. unfold send_subscribe. destruct (st c) eqn:E; destruct (wbuf c) eqn:W; cbn; rewrite ?E, ?W; repeat split; reflexivity. Qed.
+
+Lemma send_subscribe_st c : st (send_subscribe c) = st c.
+Proof. apply send_subscribe_fields. Qed.
+Lemma send_subscribe_rbuf c : rbuf (send_subscribe c) = rbuf c.
+Proof. apply send_subscribe_fields. Qed.
+Lemma send_subscribe_wbuf c : wbuf (send_subscribe c) = wbuf c.
+Proof. apply send_subscribe_fields. Qed.
+
+Lemma send_subscribe_off c : st c <> Connected -> send_subscribe c = c.
+Proof. unfold send_subscribe. destruct (st c); [reflexivity|reflexivity|congruence]. Qed.
+
+Lemma send_subscribe_empty c : wbuf c = [] -> send_subscribe c = c.
+Proof. unfold send_subscribe. intros ->. destruct (st c); reflexivity. Qed.
+
+Lemma step_send_inv dec c now p script c' o :
+  step dec c (ESend now p script) = (c', o) ->
+  exists c1, try_send now script (set_wbuf c (wbuf c ++ frame p)) = (c1, o) /\ c' = send_subscribe c1.
+Proof.
+  unfold step, step_gen; fold (poll_connected dec). destruct (try_send now script (set_wbuf c (wbuf c ++ frame p))) as [c1 o1].
+  intros H. inversion H; subst. exists c1. split; reflexivity.
+Qed.
+
+Lemma resubscribe_fields c :
+  st (resubscribe c) = st c /\ rbuf (resubscribe c) = rbuf c /\ wbuf (resubscribe c) = wbuf c /\
+  last_read (resubscribe c) = last_read c /\ timeout (resubscribe c) = timeout c /\
+  reconnect (resubscribe c) = reconnect c /\ reuse_fd (resubscribe c) = reuse_fd c.
+Proof. unfold resubscribe. cbn. repeat split; reflexivity. Qed.
+
+(* what the WRITE branch does to the connection __trySendBuffer() left *)
+Definition wpost (wr : bool) (c : conn) : conn :=
+  if wr then match st c with Connected => resubscribe c | _ => c end else c.
+
+Lemma wpost_fields wr c :
+  st (wpost wr c) = st c /\ rbuf (wpost wr c) = rbuf c /\ wbuf (wpost wr c) = wbuf c /\
+  last_read (wpost wr c) = last_read c /\ timeout (wpost wr c) = timeout c /\
+  reconnect (wpost wr c) = reconnect c /\ reuse_fd (wpost wr c) = reuse_fd c.
+Proof.
+  unfold wpost. destruct wr; [|repeat split; reflexivity].
+  pose proof (resubscribe_fields c) as R.
+  destruct (st c) eqn:E.
+  - repeat split; solve [reflexivity|exact E].
+  - repeat split; solve [reflexivity|exact E].
+  - exact R.
+Qed.
+
+Lemma wpost_st wr c : st (wpost wr c) = st c. Proof. apply wpost_fields. Qed.
+Lemma wpost_rbuf wr c : rbuf (wpost wr c) = rbuf c. Proof. apply wpost_fields. Qed.
+Lemma wpost_wbuf wr c : wbuf (wpost wr c) = wbuf c. Proof. apply wpost_fields. Qed.
+Lemma wpost_last_read wr c : last_read (wpost wr c) = last_read c. Proof. apply wpost_fields. Qed.
+Lemma wpost_timeout wr c : timeout (wpost wr c) = timeout c. Proof. apply wpost_fields. Qed.
+Lemma wpost_reconnect wr c : reconnect (wpost wr c) = reconnect c. Proof. apply wpost_fields. Qed.
+
+Lemma write_part_spec now (wr : bool) ss c c2' o2 :
+  (if wr
+   then let (c2, o2) := try_send now ss c in
+        match st c2 return conn * outs with
+        | Disconnected => (c2, o2)
+        | Connecting => (c2, o2)
+        | Connected => (resubscribe c2, o2)
+        end
+   else (c, no_out)) = ((c2', o2) : conn * outs) ->
+  exists c2, (if wr then try_send now ss c else (c, no_out)) = (c2, o2) /\ c2' = wpost wr c2.
+Proof.
+  intros H. unfold wpost. destruct wr.
+  - destruct (try_send now ss c) as [c2 o] eqn:E. exists c2.
+    destruct (st c2) eqn:Es; inversion H; subst; split; reflexivity.
+  - exists c. inversion H; subst. split; reflexivity.
+Qed.
+
+Lemma step_send_eq dec c now p script :
+  step dec c (ESend now p script) =
+  (send_subscribe (fst (try_send now script (set_wbuf c (wbuf c ++ frame p)))),
+   snd (try_send now script (set_wbuf c (wbuf c ++ frame p)))).
+Proof. unfold step, step_gen; fold (poll_connected dec). destruct (try_send now script (set_wbuf c (wbuf c ++ frame p))); reflexivity. Qed.
+
 Section C13.
   Variable dec : bytes -> dres.
   Variable payload : N -> bytes.
@@ -558,27 +639,41 @@ Section C13.
      nothing to write), no error flag, no timeout, whose recv calls return the
      non-empty chunks bs and then EAGAIN (or the script ends): the read buffer
      grows by the chunks and the parse loop runs once -- that is [feed]. *)
+  (* what the WRITE branch leaves in the poller when there was nothing to write *)
+  Definition wsub (wr : bool) (c : conn) : conn :=
+    if wr then set_interest c (Some (RE false)) else c.
+
   Lemma step_poll_is_feed c now wr ss bs tl :
     st c = Connected -> now - last_read c <= timeout c ->
     (wr = true -> wbuf c = []) ->
     Forall (fun b => b <> []) bs -> read_quiet tl ->
     step dec c (EPoll now true wr false false ss (chunks_script bs ++ tl))
-    = feed now (set_last_read c now) (concat bs).
+    = feed now (set_last_read (if wr then set_interest c (Some (RE false)) else c) now) (concat bs).
   Proof.
-    intros Hst Ht Hw Hbs Htl. unfold step. rewrite Hst.
+    intros Hst Ht Hw Hbs Htl. unfold step, step_gen; fold (poll_connected dec). rewrite Hst.
     rewrite (check_timeout_ok now c Ht). cbv beta iota zeta. rewrite Hst.
-    cbn [orb andb]. unfold poll_connected.
-    assert (Hs : (if wr then try_send now ss c else (c, no_out)) = (c, no_out)).
-    { destruct wr; [|reflexivity]. unfold try_send.
+    cbn [orb andb]. unfold poll_connected, poll_connected_gen.
+    assert (Hs : (if wr
+                  then let (c2, o2) := try_send now ss c in
+                       match st c2 with
+                       | Disconnected => (c2, o2)
+                       | Connecting => (if true then c2 else resubscribe_stale c2, o2)
+                       | Connected => (resubscribe c2, o2)
+                       end
+                  else (c, no_out)) = (wsub wr c, no_out)).
+    { unfold wsub. destruct wr; [|reflexivity]. unfold try_send.
       rewrite (check_timeout_ok now c Ht), Hst.
-      rewrite (send_loop_empty now ss c (Hw eq_refl)). reflexivity. }
-    rewrite Hs. cbv beta iota. rewrite Hst.
-    rewrite (read_loop_chunks now bs c tl Hbs), (read_loop_quiet now tl _ Htl).
-    cbv beta iota. cbn [st set_last_read set_rbuf]. rewrite Hst.
+      rewrite (send_loop_empty now ss c (Hw eq_refl)). cbv beta iota. rewrite Hst.
+      unfold resubscribe. rewrite (Hw eq_refl). reflexivity. }
+    rewrite Hs. fold (wsub wr c).
+    assert (Hst' : st (wsub wr c) = Connected) by (unfold wsub; destruct wr; exact Hst).
+    cbv beta iota. rewrite Hst'.
+    rewrite (read_loop_chunks now bs (wsub wr c) tl Hbs), (read_loop_quiet now tl _ Htl).
+    cbv beta iota. cbn [st set_last_read set_rbuf]. rewrite Hst'.
     unfold feed.
-    change (set_rbuf (set_last_read c now) (rbuf (set_last_read c now) ++ concat bs))
-      with (set_last_read (set_rbuf c (rbuf c ++ concat bs)) now).
-    destruct (parse_all dec now (set_last_read (set_rbuf c (rbuf c ++ concat bs)) now)) as [c4 o4].
+    change (set_rbuf (set_last_read (wsub wr c) now) (rbuf (set_last_read (wsub wr c) now) ++ concat bs))
+      with (set_last_read (set_rbuf (wsub wr c) (rbuf (wsub wr c) ++ concat bs)) now).
+    destruct (parse_all dec now (set_last_read (set_rbuf (wsub wr c) (rbuf (wsub wr c) ++ concat bs)) now)) as [c4 o4].
     rewrite !out_app_no_out_l. reflexivity.
   Qed.
 
@@ -738,7 +833,7 @@ Section C13.
   (* a Disconnected connection ignores poll events ... *)
   Lemma step_poll_disconnected c now rd wr er soerr ss rs :
     st c = Disconnected -> step dec c (EPoll now rd wr er soerr ss rs) = (c, no_out).
-  Proof. intros H. unfold step. rewrite H. reflexivity. Qed.
+  Proof. intros H. unfold step, step_gen; fold (poll_connected dec). rewrite H. reflexivity. Qed.
 
   (* ... and whatever happens to it short of a connect(), it stays
      Disconnected, delivers nothing, sends nothing, and no callback runs *)
@@ -754,12 +849,12 @@ Section C13.
     st (fst (step dec c e)) = Disconnected /\ quiet (snd (step dec c e)).
   Proof.
     intros H Hn. destruct e as [now p script|now rd wr er soerr ss rs|now|now]; [| | |destruct Hn].
-    - unfold step, try_send, check_timeout.
+    - rewrite step_send_eq. cbn [fst snd]. rewrite send_subscribe_st. unfold try_send, check_timeout.
       destruct (now - last_read (set_wbuf c (wbuf c ++ frame p)) >? timeout (set_wbuf c (wbuf c ++ frame p))).
       + unfold disconnect. cbn [st set_wbuf]. rewrite H. cbn. repeat split.
       + cbn [st set_wbuf]. rewrite H. cbn. rewrite H. repeat split.
     - rewrite step_poll_disconnected by assumption. cbn. rewrite H. repeat split.
-    - unfold step, disconnect. rewrite H. cbn. repeat split.
+    - unfold step, step_gen, disconnect. rewrite H. cbn. repeat split.
   Qed.
 
   Theorem run_disconnected es : forall c,
@@ -887,11 +982,14 @@ Section C13.
   Lemma poll_connected_clr now rd wr ss rs c c' o :
     poll_connected dec now rd wr ss rs c = (c', o) -> clr c' o.
   Proof.
-    unfold poll_connected. intros H.
-    destruct (if wr then try_send now ss c else (c, no_out)) as [c2 o2] eqn:E2.
-    assert (C2 : clr c2 o2).
-    { destruct wr; [exact (try_send_clr now ss c c2 o2 E2)|].
+    unfold poll_connected, poll_connected_gen. intros H.
+    match type of H with (let (_, _) := ?W in _) = _ => destruct W as [c2' o2] eqn:E2' end.
+    apply write_part_spec in E2' as (c2 & E2 & ->).
+    assert (C2 : clr (wpost wr c2) o2).
+    { unfold clr. rewrite wpost_rbuf, wpost_wbuf, wpost_st.
+      destruct wr; [exact (try_send_clr now ss c c2 o2 E2)|].
       pair_inv E2 c2 o2. apply clr_no_out. }
+    remember (wpost wr c2) as c2w eqn:Ew. clear Ew E2 c2. rename c2w into c2.
     destruct (st c2) eqn:Es2.
     - pair_inv H c' o. exact C2.
     - pair_inv H c' o. exact C2.
@@ -930,8 +1028,10 @@ Section C13.
     assert (Fin : clr c' o -> rbuf c' = [] /\ wbuf c' = []).
     { intros [L|(R1 & R2 & _)]; [lia|split; assumption]. }
     destruct e as [now p script|now rd wr er soerr ss rs|now|now].
-    - apply Fin. exact (try_send_clr _ _ _ _ _ H).
-    - unfold step in H. destruct (st c) eqn:Es.
+    - apply step_send_inv in H as (c1 & H & ->). apply Fin.
+      unfold clr. rewrite send_subscribe_rbuf, send_subscribe_wbuf, send_subscribe_st.
+      exact (try_send_clr _ _ _ _ _ H).
+    - unfold step, step_gen in H; fold (poll_connected dec) in H. destruct (st c) eqn:Es.
       + pair_inv H c' o. cbn in Hd. lia.
       + (* CONNECTING *)
         destruct er; [apply Fin; exact (disconnect_clr _ _ _ _ H)|].
@@ -969,7 +1069,7 @@ Section C13.
              rewrite out_app_no_out_l in Hd.
              destruct E2 as [L|(R1 & R2 & _)]; [lia|split; assumption].
     - apply Fin. exact (disconnect_clr _ _ _ _ H).
-    - unfold step in H. pair_inv H c' o. cbn in Hd. lia.
+    - unfold step, step_gen in H; fold (poll_connected dec) in H. pair_inv H c' o. cbn in Hd. lia.
   Qed.
 
   (* how a read burst ends in a disconnect: ECONNRESET, EOF, or SO_ERROR set
@@ -999,9 +1099,9 @@ Section C13.
     step dec c (EPoll now true false false false [] (chunks_script bs ++ tl))
     = (set_last_read (dead now c) now, disc_out).
   Proof.
-    intros Hst Ht Hbs Htl. unfold step. rewrite Hst.
+    intros Hst Ht Hbs Htl. unfold step, step_gen; fold (poll_connected dec). rewrite Hst.
     rewrite (check_timeout_ok now c Ht). cbv beta iota zeta. rewrite Hst.
-    cbn [orb andb]. unfold poll_connected. cbv beta iota. rewrite Hst.
+    cbn [orb andb]. unfold poll_connected, poll_connected_gen. cbv beta iota. rewrite Hst.
     rewrite (read_loop_chunks now bs c tl Hbs), (read_loop_burst_end now tl _ Htl).
     rewrite disconnect_live by (cbn [st set_rbuf]; congruence).
     change (dead now (set_rbuf c (rbuf c ++ concat bs))) with (dead now c).
@@ -1019,9 +1119,9 @@ Section C13.
     st c = Connecting -> now - last_read c <= timeout c -> rd || wr = true ->
     step dec c (EPoll now rd wr false false ss rs) =
       ({| st := Connected; rbuf := rbuf c; wbuf := wbuf c; last_read := now;
-          timeout := timeout c; reconnect := reconnect c |}, conn_out).
+          timeout := timeout c; reconnect := reconnect c; interest := interest c; reuse_fd := reuse_fd c |}, conn_out).
   Proof.
-    intros Hst Ht Hrw. unfold step. rewrite Hst.
+    intros Hst Ht Hrw. unfold step, step_gen; fold (poll_connected dec). rewrite Hst.
     rewrite (check_timeout_ok now c Ht). cbv beta iota zeta. rewrite Hst, Hrw.
     cbn [andb]. rewrite out_app_no_out_l. reflexivity.
   Qed.
@@ -1044,7 +1144,7 @@ Section C13.
     intros Hg Hst Hr Ht Hrw Hok Hc. cbn [run].
     rewrite (step_establish c t0 rd wr ss rs Hst Ht Hrw).
     set (c1 := {| st := Connected; rbuf := rbuf c; wbuf := wbuf c; last_read := t0;
-                  timeout := timeout c; reconnect := reconnect c |}).
+                  timeout := timeout c; reconnect := reconnect c; interest := interest c; reuse_fd := reuse_fd c |}).
     destruct (reader_run_complete ms ps c1 Hg eq_refl Hr Hok Hc)
       as (c' & os & R & F1 & F2 & _ & F4).
     exists c', (conn_out :: os). rewrite R. repeat split; try assumption.
